@@ -31,6 +31,10 @@ static void check_case(vg::Src& s, vh::Ctx& c)
     {
         vg::FieldInfo fi;
         src = vg::gen_field(s, fc.m, &fi);
+        // the integral of the source must stay finite: |src| <= 1e150 (x area x node count)
+        for (auto& e : src)
+            if (std::fabs(e) > 1e150)
+                e *= 1e-200;
         if (nonneg)
             for (auto& e : src)
                 e = std::fabs(e);
